@@ -45,6 +45,9 @@ pub struct Known {
     pub example_replay: String,
     #[serde(default)]
     pub seen_from: Vec<String>,
+    /// further kept inputs of the same finding (other formats / paths that reach the same root)
+    #[serde(default)]
+    pub more_replays: Vec<String>,
 }
 
 pub fn load_known() -> Result<Vec<Known>, String> {
@@ -74,8 +77,12 @@ pub fn load_known() -> Result<Vec<Known>, String> {
 /// is still new.  Nothing is written to the file.
 fn rekey_known(known: &mut Vec<Known>, prop: &str) {
     let mut extra: Vec<Known> = Vec::new();
-    for k in known.iter().filter(|k| k.status == "open" && k.property == prop && !k.example_replay.is_empty()) {
-        let path = format!("{}/{}", verif_root(), k.example_replay);
+    for (k, rp) in known
+        .iter()
+        .filter(|k| k.status == "open" && k.property == prop)
+        .flat_map(|k| std::iter::once(&k.example_replay).chain(k.more_replays.iter()).filter(|p| !p.is_empty()).map(move |p| (k, p)))
+    {
+        let path = format!("{}/{}", verif_root(), rp);
         let rf: ReplayFile = match std::fs::read_to_string(&path).ok().and_then(|t| serde_json::from_str(&t).ok()) {
             Some(r) => r,
             None => continue,
@@ -1194,21 +1201,23 @@ pub fn selftest_known() -> i32 {
             println!("alias {} {} (no replay of its own)", k.class, k.origin_fn);
             continue;
         }
-        let path = format!("{}/{}", verif_root(), k.example_replay);
-        let rf: ReplayFile = match std::fs::read_to_string(&path).ok().and_then(|t| serde_json::from_str(&t).ok()) {
-            Some(r) => r,
-            None => {
-                println!("STALE {}: no readable replay file {}", k.origin, path);
+        for rp in std::iter::once(&k.example_replay).chain(k.more_replays.iter()) {
+            let path = format!("{}/{}", verif_root(), rp);
+            let rf: ReplayFile = match std::fs::read_to_string(&path).ok().and_then(|t| serde_json::from_str(&t).ok()) {
+                Some(r) => r,
+                None => {
+                    println!("STALE {}: no readable replay file {}", k.origin, path);
+                    bad += 1;
+                    continue;
+                }
+            };
+            let hit = exec_spec_isolated(&rf.spec, 1).map(|r| r.violations.iter().any(|v| v.class == k.class && (v.origin == k.origin || (!k.origin_fn.is_empty() && site_fn(&v.origin) == k.origin_fn)))).unwrap_or(false);
+            if hit {
+                println!("ok    {} {} ({})", k.class, if k.origin.is_empty() { &k.origin_fn } else { &k.origin }, rp);
+            } else {
+                println!("STALE {} {}: {} does not reproduce it", k.class, k.origin, rp);
                 bad += 1;
-                continue;
             }
-        };
-        let hit = exec_spec_isolated(&rf.spec, 1).map(|r| r.violations.iter().any(|v| v.class == k.class && (v.origin == k.origin || (!k.origin_fn.is_empty() && site_fn(&v.origin) == k.origin_fn)))).unwrap_or(false);
-        if hit {
-            println!("ok    {} {}", k.class, if k.origin.is_empty() { &k.origin_fn } else { &k.origin });
-        } else {
-            println!("STALE {} {}: {} does not reproduce it", k.class, k.origin, k.example_replay);
-            bad += 1;
         }
     }
     println!("known findings: {} open, {} stale", n, bad);
